@@ -156,7 +156,7 @@ def h_enumeration(E, ns, kind):
     import networkx as nx
     import synkit.CRN.Petri.structure as st
 
-    sp = SPECIES[:ns]
+    sp = (SPECIES + ["E", "F"])[:ns]
     G = nx.DiGraph()
     for s in sp:
         G.add_node("S:" + s, kind="species", bipartite=0, label=s)
